@@ -128,7 +128,8 @@ fn check_from<T: Scalar>(spec: &Spec, base: &[f64], alpha: &[f64], depth: usize,
                 s.tainted = true;
             }
             st.out(o.map(|v| v.f()));
-            let ht = to_t::<T>(hist);
+            // (only the last N+1 values matter for the flatness exclusions)
+            let ht = to_t::<T>(&hist[hist.len().saturating_sub(k)..]);
             let flat = refs::is_flat(refs::window(&ht, k));
             // C02 defines Vst on a flat window as the value itself, which no scaling leaves
             // unchanged: the degenerate window is excluded for Vst's scale clause as well
@@ -159,8 +160,12 @@ fn check_from<T: Scalar>(spec: &Spec, base: &[f64], alpha: &[f64], depth: usize,
                     };
                     agrees(oi, want, 1e-9 * scale, false)
                 } else {
-                    // bit-exact for power-of-two scales and dyadic offsets; +0 and -0 identified
-                    opt_same(oi, want) || matches!((oi, want), (Some(p), Some(q)) if p == q)
+                    // bit-exact for power-of-two scales and dyadic offsets; +0 and -0 identified; a transient
+                    // that has decayed into the subnormal range no longer scales exactly (underflow)
+                    let tiny = |v: Option<T>| v.map(|x| x.f().abs() < 1e-290).unwrap_or(false);
+                    opt_same(oi, want)
+                        || matches!((oi, want), (Some(p), Some(q)) if p == q)
+                        || ((tiny(o) || tiny(oi) || tiny(want)) && matches!((oi, want), (Some(p), Some(q)) if (p.f() - q.f()).abs() <= 1e-9 * q.f().abs() + 1e-300))
                 };
                 if !ok {
                     sink.push(
@@ -290,6 +295,30 @@ pub fn run(ctx: &Ctx) -> CheckOutput {
                     }
                 }
                 JobOut { stats: st, viols: sink.take(), samples: vec![] }
+            }));
+        }
+    }
+    // scale families: a run past 2^16 updates and a window past 2^8, the lockstep images judged at every
+    // step (drivers: the four integer-valued streams and their images under 0.7x+0.1)
+    for kind in AFFINE.iter().chain(SCALE_INV.iter()).chain(SCALE_EQ.iter()) {
+        let e = crate::spec::entry(*kind);
+        if !e.has_n || e.positive_domain {
+            continue;
+        }
+        for (label, n, len) in [("long run", 5usize.max(e.min_n).max(if *kind == Kind::CyberCycle { 6 } else { 1 }), 66_000usize), ("wide window", if *kind == Kind::Net { 100 } else { 300 }, 640)] {
+            let spec = mk(*kind, n, Spec::echo());
+            jobs.push(Box::new(move || {
+                let mut st = Stats::default();
+                let sink = Sink::new();
+                for (_, d) in scale_drivers(len, n) {
+                    check_from::<f64>(&spec, &d, &[], 0, &mut st, &sink);
+                    // (a dyadic offset is exact only on values that are themselves dyadic)
+                    if !DIFF_ONLY.contains(&spec.kind) {
+                        let img: Vec<f64> = d.iter().map(|x| 0.7 * x + 0.1).collect();
+                        check_from::<f64>(&spec, &img, &[], 0, &mut st, &sink);
+                    }
+                }
+                JobOut { stats: st, viols: sink.take(), samples: vec![json!({"explorer":"LONG","scalar":"f64","view":spec.name(),"family":label,"steps":len,"drivers":8})] }
             }));
         }
     }
